@@ -191,7 +191,7 @@ def sweep(ctx):
         cfg = gen.gen_config(ctx.rng, small=True, kicks=(kind == "kicks"), escape=(kind == "escape"))
         cfg["N0"] = float(round(loguniform(ctx.rng, 1e5, 2e6)))
         if kind == "escape":
-            sc = cfg["N0"] if cfg["kw"]["esc_norm"] == "N" else cfg["N0"] * gen.imf_mean_mass(cfg["m_breaks"], cfg["a_slopes"])
+            sc = cfg["N0"] if cfg["kw"]["esc_norm"] == "N" else cfg["N0"] * gen.imf_mass_per_star_below(cfg["m_breaks"], cfg["a_slopes"])
             cfg["esc_rate"] = -ctx.rng.uniform(0.05, 0.4) * sc / max(cfg["tout"])
         if kind == "kicks":
             cfg["kw"]["BH_ret_dyn"] = ctx.rng.choice([0.3, 0.5, 0.05])
